@@ -76,7 +76,11 @@ impl Gen {
             let victim = (m + 1 + self.r.below(self.n as u64 - 1) as usize) % self.n;
             let ev = self.next_ev; self.next_ev += 1; self.adv += 1;
             self.evs.insert(ev, EvMeta { kind: "commit", author: m, epoch_hint: self.client_epoch[m] });
-            let akind = if self.twin && victim >= 2 { *self.r.pick(&["ga", "ic"]) } else { *self.r.pick(&["rm", "rm", "ga", "gn", "ic", "ic"]) };
+            let akind = if self.twin && victim >= 2 { *self.r.pick(&["ga", "ic"]) } else { *self.r.pick(&["rm", "rm", "ga", "gn", "ic", "ic", "pr"]) };
+            // a standalone Remove proposal naming another member: at most one roster proposal per history (an auto-commit sweeps
+            // whatever else is queued, which the model's auto-commit does not carry)
+            let akind = if akind == "pr" && (self.twin || self.left.is_some() || self.removed) { "rm" } else { akind };
+            if akind == "pr" { self.left = Some(99); self.evs.insert(ev, EvMeta { kind: "rmprop", author: m, epoch_hint: self.client_epoch[m] }); }
             return format!("PR ADV {m} {akind} {victim} {ev} {}", self.ts());
         }
         if w.reopen.is_some() && k >= 96 { return format!("PR RESTART {m}"); }
@@ -106,11 +110,15 @@ impl Gen {
             let ev = *self.r.pick(&ids);
             let meta = self.evs[&ev].clone();
             if self.regime_causal && meta.epoch_hint > self.client_epoch[m] { continue; }
+            // (the builder of a raw Remove proposal holds no record of it: its own echo is not part of the modelled behaviour)
+            if meta.kind == "rmprop" && meta.author == m { continue; }
             self.delivered.insert(ev);
             return format!("PR DELIVER {m} {ev}");
         }
-        self.delivered.insert(ids[0]);
-        format!("PR DELIVER {m} {}", ids[0])
+        let own_raw = |e: &u64, m: usize| { let mt = &self.evs[e]; mt.kind == "rmprop" && mt.author == m };
+        let (m, e0) = match ids.iter().cloned().find(|e| !own_raw(e, m)) { Some(e) => (m, e), None => ((m + 1) % self.n, ids[0]) };
+        self.delivered.insert(e0);
+        format!("PR DELIVER {m} {e0}")
     }
 }
 
@@ -186,17 +194,20 @@ fn run_world<S: MdkStorageProvider, F: Fn(usize) -> S>(run: &mut Run, lines_in: 
     }
     for h in 0..nhist {
         world_no.set(1000 + h);
-        let removal_script = h % 5 == 2;
-        let reuse_script = h % 5 == 0;
-        let admin_rb_script = h % 5 == 3;
-        let n = if removal_script || reuse_script { 4 } else { 3 + r.below(2) as usize };
+        let removal_script = h % 6 == 2;
+        let reuse_script = h % 6 == 0;
+        let admin_rb_script = h % 6 == 3;
+        let rmprop_script = h % 6 == 5;
+        let n = if removal_script || reuse_script || rmprop_script { 4 } else { 3 + r.below(2) as usize };
         let spare = if reuse_script { 1 } else { 0 };
         let mut admin_mask = 1 | (r.below(1 << n) & !1) ;
         let retention = *r.pick(&[5usize, 5, 5, 5, 5, 2, 1, 0]);
         // one history in three of the four-member worlds has a two-device user (clients 2 and 3 share one identity)
-        let twin = n == 4 && !reuse_script && (removal_script || r.chance(1, 3));
+        let twin = n == 4 && !reuse_script && !rmprop_script && (removal_script || r.chance(1, 3));
         if reuse_script { admin_mask &= !0b10; }
         if admin_rb_script { admin_mask &= !0b100; }
+        if rmprop_script { admin_mask &= !0b100; }
+        if removal_script && (h / 6) % 3 == 2 { admin_mask |= 0b10; }
         if twin { admin_mask = (admin_mask & !0b1000) | ((admin_mask & 0b100) << 1); }
         let mut g = Gen { r: r.fork(), n, admin_mask, next_ev: 0, next_msg: 1, evs: BTreeMap::new(),
                           regime_causal: h % 3 != 2, immediate: h % 4 == 3, client_epoch: vec![1; n], delivered: BTreeSet::new(), left: None, adv: 0, twin, removed: false, no_send: BTreeSet::new() };
@@ -212,7 +223,7 @@ fn run_world<S: MdkStorageProvider, F: Fn(usize) -> S>(run: &mut Run, lines_in: 
         // with snapshots) while member 1's application message and competing commit of the first epoch are still in flight;
         // d straddles the exporter-secret lookback and the snapshot retention (both 5 by default)
         let mut script: Vec<String> = vec![];
-        if h % 5 == 4 {
+        if h % 6 == 4 {
             let d = 3 + g.r.below(4);
             let (e_app, e_comp) = (g.next_ev, g.next_ev + 1); g.next_ev += 2;
             let msg = g.next_msg; g.next_msg += 1;
@@ -274,7 +285,7 @@ fn run_world<S: MdkStorageProvider, F: Fn(usize) -> S>(run: &mut Run, lines_in: 
         // persistent backends, residue 1: a client is restarted with a SMALLER snapshot retention after several commits; the very
         // next commit must bring its stored snapshots within the new limit (scripted back to back: nothing else touches the
         // snapshot manager in between)
-        if h % 5 == 1 && w.reopen.is_some() && retention >= 4 {
+        if h % 6 == 1 && w.reopen.is_some() && retention >= 4 {
             for i in 0..4u64 {
                 let ev = g.next_ev; g.next_ev += 1;
                 g.evs.insert(ev, EvMeta { kind: "commit", author: 0, epoch_hint: 1 + i });
@@ -291,6 +302,21 @@ fn run_world<S: MdkStorageProvider, F: Fn(usize) -> S>(run: &mut Run, lines_in: 
             g.delivered.insert(ev);
             script.reverse();
         }
+        // residue 5: a blank leaf below the proposer.  The admin removes member 1 (leaf 1 goes blank), then member 2 - not an admin -
+        // builds a Remove PROPOSAL naming member 3 with the MLS library.  Every receiver, admins included, only queues it: the one
+        // automatic commit is of a member's OWN request to leave (leaf index of the sender = leaf index removed, blank leaves or not)
+        if rmprop_script {
+            let (e_rm, e_pr) = (g.next_ev, g.next_ev + 1); g.next_ev += 2;
+            g.evs.insert(e_rm, EvMeta { kind: "commit", author: 0, epoch_hint: 1 });
+            g.evs.insert(e_pr, EvMeta { kind: "rmprop", author: 2, epoch_hint: 2 });
+            g.removed = true; g.left = Some(99); g.adv += 1;
+            script.push(format!("PR COMMIT 0 rv1 {e_rm} 100"));
+            for c in [0usize, 2, 3, 1] { script.push(format!("PR DELIVER {c} {e_rm}")); }
+            script.push(format!("PR ADV 2 pr 3 {e_pr} 101"));
+            for c in [0usize, 3] { script.push(format!("PR DELIVER {c} {e_pr}")); }
+            g.delivered.insert(e_rm); g.delivered.insert(e_pr);
+            script.reverse();
+        }
         // every fifth history (another residue) removes a two-device user right away and then lets the remaining members talk
         if removal_script {
             let (e_rm, e_app) = (g.next_ev, g.next_ev + 1); g.next_ev += 2;
@@ -299,7 +325,22 @@ fn run_world<S: MdkStorageProvider, F: Fn(usize) -> S>(run: &mut Run, lines_in: 
             g.evs.insert(e_app, EvMeta { kind: "app", author: 0, epoch_hint: 2 });
             g.removed = true;
             let victim = 2 + g.r.below(2);
-            if (h / 5) % 2 == 1 {
+            if (h / 6) % 3 == 2 {
+                // variant: the leave reaches BOTH admins (0 and 1), who each auto-commit it: a MIP-03 race between two commits that
+                // carry the same proposal by reference.  The other device of the user applies the later-stamped one first and
+                // must roll back - proposal store included - to apply the earlier-stamped one; so must admin 0 after its own echo
+                let (a0, a1) = (1000 + e_rm * 8, 1000 + e_rm * 8 + 1);
+                let other = 5 - victim;
+                g.evs.insert(e_rm, EvMeta { kind: "prop", author: victim as usize, epoch_hint: 1 });
+                g.left = Some(victim as usize);
+                script.push(format!("PR LEAVE {victim} {e_rm} 100"));
+                script.push(format!("PR DELIVER 0 {e_rm} 105"));
+                script.push(format!("PR DELIVER 1 {e_rm} 100"));
+                for e in [e_rm, a0, a1] { script.push(format!("PR DELIVER {other} {e}")); }
+                for e in [a0, a1] { script.push(format!("PR DELIVER 0 {e}")); }
+                script.push(format!("PR DELIVER 1 {a1}"));
+                script.push(format!("PR DELIVER {victim} {a1}"));
+            } else if (h / 6) % 3 == 1 {
                 // variant: ONE device of the two-device user leaves; the admin auto-commits the proposal; only that device goes
                 let aev = 1000 + e_rm * 8;
                 g.evs.insert(e_rm, EvMeta { kind: "prop", author: victim as usize, epoch_hint: 1 });
@@ -400,6 +441,10 @@ fn step<S: MdkStorageProvider>(w: &mut World<S>, l: &str, truth: &mut Truth, run
                 run.oracle_fail("C05", if truth.sweeps && own { "operation-commits-others-pending-proposals" } else { "" }, format!("[{backend}] member {m}: roster/name changed ({:?},{name_before}) -> ({:?},{name_after}) by event {ev} which is not an authorised commit", members_before, members_after), seqtxt());
             }
         }
+        // C05: the only automatic commit is of a member's OWN request to leave: a Remove proposal naming somebody else is queued
+        if let Some(i) = &info { if i.ckind == "adv-pr" && (fp.starts_with("res=AutoCommit") || fp.contains(" pend=1 ") && !before.as_ref().map(|b| b.contains(" pend=1 ")).unwrap_or(false)) {
+            run.oracle_fail("C05", "", format!("[{backend}] member {m} auto-committed event {ev}, member {}'s Remove proposal naming member {:?} - not a request to leave", i.author, i.removes), seqtxt());
+        } }
         // C04: every stored message is attributed to its true author and keyed by the hash of its own fields
         if let Ok(msgs) = w.clients[m].mdk.get_messages(&w.gid, None) {
             for sm in msgs {
@@ -477,6 +522,17 @@ fn step<S: MdkStorageProvider>(w: &mut World<S>, l: &str, truth: &mut Truth, run
         if let (Ok(Some(rec)), Ok(Some(g))) = (w.clients[m].mdk.get_group(&w.gid), w.clients[m].mdk.load_mls_group(&w.gid)) {
             if let Ok(d) = mdk_core::extension::NostrGroupDataExtension::from_group(&g) { if g.is_active() && rec.admin_pubkeys != d.admins {
                 run.oracle_fail("C08", "", format!("[{backend}] after `{l}` member {m}'s stored admin set differs from the admin set of its MLS group data"), seq.join(" || ") + " || " + &line);
+            }
+            // ... and every other field of the group data: name, description, Nostr group id, image fields, relay list
+            if g.is_active() {
+                let stored_relays: BTreeSet<String> = w.clients[m].mdk.get_relays(&w.gid).map(|v| v.iter().map(|r| r.to_string()).collect()).unwrap_or_default();
+                let mls_relays: BTreeSet<String> = d.relays.iter().map(|r| r.to_string()).collect();
+                let diff = if stored_relays != mls_relays { Some(format!("relays {stored_relays:?} vs {mls_relays:?}")) }
+                    else if rec.name != d.name { Some(format!("name {} vs {}", rec.name, d.name)) }
+                    else if rec.description != d.description { Some("description".to_string()) }
+                    else if rec.nostr_group_id != d.nostr_group_id { Some("Nostr group id".to_string()) }
+                    else if rec.image_hash != d.image_hash || rec.image_key.as_ref().map(|k| **k) != d.image_key.as_ref().map(|k| *k) || rec.image_nonce.as_ref().map(|k| **k) != d.image_nonce.as_ref().map(|k| *k) { Some("image fields".to_string()) } else { None };
+                if let Some(df) = diff { run.oracle_fail("C08", "", format!("[{backend}] after `{l}` member {m}'s stored group record differs from the group data of its MLS state: {df}"), seq.join(" || ") + " || " + &line); }
             } }
         }
     }
@@ -504,8 +560,16 @@ fn step<S: MdkStorageProvider>(w: &mut World<S>, l: &str, truth: &mut Truth, run
         let refused = ["res=Err", "res=Unprocessable", "res=PreviouslyFailed", "res=IgnoredProposal"].iter().any(|k| fp.starts_with(k));
         if refused && strip(&fp) != b {
             let rolled = w.clients[m].cb.0.lock().unwrap().len() > rb_before;
-            let cls = if rolled { "rolled-back-then-refused" } else { "" };
-            if rolled { truth.rollback_then_refused = true; }
+            // the known finding is about a candidate that CANNOT be accepted (unauthorised, identity-changing, built on another
+            // branch, or committing a proposal this client never held).  An authorised commit created in exactly the state the
+            // client was rolled back to, all of whose by-reference proposals had taken effect here, must be applied after the
+            // rollback: refusing it is a different failure (e.g. a snapshot that did not restore everything)
+            let ev: u64 = t[3].parse().unwrap();
+            let here: Option<u64> = w.sigma_of(m, None).parse().ok();
+            let acceptable = w.events.get(&ev).map(|i| i.kind == "commit" && i.author != m && i.auth && i.ckind != "adv-ic" && Some(i.state) == here
+                && i.refs.iter().all(|r| truth.took_effect.contains(&(m, *r)))).unwrap_or(false);
+            let cls = if rolled && !acceptable { "rolled-back-then-refused" } else { "" };
+            if rolled && !acceptable { truth.rollback_then_refused = true; }
             if leave_to_pending_admin { truth.leave_to_admin_with_pending = true; }
             run.oracle_fail("C06", cls, format!("[{backend}] refused event changed the client's state: `{l}` -> {fp}; before: {b}"), seq.join(" || ") + " || " + &line);
         }
